@@ -22,6 +22,7 @@ from .helpers import (
     ETag,
     HeadersMixin,
     ResponseKey,
+    _has_zero_weight,
     must_be_empty_body,
     parse_http_date,
     populate_with_cookies,
@@ -349,6 +350,12 @@ class StreamResponse(
         # Encoding comparisons should be case-insensitive
         # https://www.rfc-editor.org/rfc/rfc9110#section-8.4.1
         accept_encoding = request.headers.get(hdrs.ACCEPT_ENCODING, "").lower()
+        # A coding listed with a zero weight ("gzip;q=0") is not acceptable.
+        accept_encoding = ",".join(
+            coding
+            for coding in accept_encoding.split(",")
+            if not _has_zero_weight(coding)
+        )
         for value, coding in CONTENT_CODINGS.items():
             if value in accept_encoding:
                 await self._do_start_compression(coding)
